@@ -158,6 +158,16 @@ CHECKS = {
               'sentence and the exact number of designation / closure / quit markers must occur.'),
         design_ref='DESIGN.md section 5 C19',
         note='Trusted: tab.tree (C16) and single-sentence LexWriter output (C12).'),
+    'C18': dict(
+        category='exploration',
+        technique='Hypothesis rule-based state machines (model-based testing against a list-without-duplicates model) + exhaustive enumeration of short operation sequences',
+        text=('Every public mutator of qset, linqset and Predicates is a rule of a state machine; after each operation the '
+              'container is compared with a plain-list model on iteration, reversed, len, membership, index and item access, '
+              'rejected operations must raise without effect (single-element) or leave a consistent container (bulk), and the '
+              'predicate store invariants are checked. All sequences of length <= 3 (thorough: 4) over a reduced alphabet are '
+              'enumerated exhaustively.'),
+        design_ref='DESIGN.md section 5 C18',
+        note='Trusted: the list model (operations are the documented list / set ones).'),
 }
 
 NOT_YET = 'check not built yet in this session (planned, see DESIGN.md section 5); no claim is made'
